@@ -99,7 +99,10 @@ impl Operator for DistinctOperator {
                 return Ok(None);
             };
 
-            let mut builder = DataChunkBuilder::with_capacity(&self.output_schema, 2048);
+            // One output chunk per input chunk: the builder grows with the input, so no
+            // unique row of the chunk is ever left behind.
+            let mut builder =
+                DataChunkBuilder::with_capacity(&self.output_schema, chunk.row_count().max(1));
 
             for row in chunk.selected_indices() {
                 let key = match &self.distinct_columns {
@@ -121,10 +124,6 @@ impl Operator for DistinctOperator {
                         }
                     }
                     builder.advance_row();
-
-                    if builder.is_full() {
-                        return Ok(Some(builder.finish()));
-                    }
                 }
             }
 
